@@ -359,3 +359,60 @@ UNITS["peerrec"] = {
         "std::collections::HashMap through vstd's specifications (obeys_key_model assumed for blake3::Hash)",
     ],
 }
+
+_LOGMACROS = ["tracing::warn!", "tracing::trace!", "tracing::debug!", "warn!", "debug!", "info!", "trace!"]
+_CLOCK = (r"let now = (?:std::time::)?SystemTime::now\(\)\s*\.duration_since\((?:std::time::)?UNIX_EPOCH\)\s*\.map\(\|d\| d\.as_secs\(\)\)\s*\.unwrap_or\(0\);",
+          "let now = verif_clock_secs();", "clock acquisition replaced by an external clock function returning an arbitrary reading below 2^62")
+UNITS["inbound"] = {
+    "property": "C05",
+    "src": "src/network.rs",
+    "spec": "verus/inbound.spec.rs",
+    "shims": {
+        "WireMessage": (None, {"protocol": "String", "data": "Vec<u8>", "from": "String", "timestamp": "u64"}),
+        "DhtRecord": ("src/placement/dht_records.rs", {}),
+        "DhtNetworkManager": ("src/dht_network_manager.rs", {}),
+    },
+    "enums": ["P2PEvent"],
+    "consts": {"MAX_RECORD_SIZE": ("src/placement/dht_records.rs", r"([0-9_]+)"),
+               "MAX_VALUE_SIZE": ("src/dht_network_manager.rs", r"([0-9_]+)"),
+               "MAX_MESSAGE_AGE_SECS": (None, r"([0-9_]+)"), "MAX_FUTURE_SECS": (None, r"([0-9_]+)")},
+    "const_items": [("src/placement/dht_records.rs", "MAX_RECORD_SIZE"), ("src/dht_network_manager.rs", "MAX_VALUE_SIZE"),
+                    ("src/network.rs", "MAX_MESSAGE_AGE_SECS"), ("src/network.rs", "MAX_FUTURE_SECS")],
+    "items": [
+        {"fn": "parse_protocol_message", "drop_macros": _LOGMACROS, "rewrite": [_CLOCK],
+         "spec": """
+    ensures
+        r.is_some() ==> decoded::<WireMessage>(bytes@).is_some(), // @C05/frame/surfaced_only_if_it_decodes
+        r.is_some() ==> in_window(decoded::<WireMessage>(bytes@).unwrap().timestamp, clock_reading()), // @C05/frame/surfaced_only_within_the_timestamp_window
+        r matches Some(P2PEvent::Message { topic, source: src, data }) ==> src@ == source@, // @C05/frame/source_is_the_authenticated_connection_identity
+        r matches Some(P2PEvent::Message { topic, source: src, data }) ==> topic == decoded::<WireMessage>(bytes@).unwrap().protocol && data == decoded::<WireMessage>(bytes@).unwrap().data, // @C05/frame/topic_and_payload_come_from_the_frame
+        r.is_some() ==> r matches Some(P2PEvent::Message { .. }), // @C05/frame/only_message_events_are_produced
+        (decoded::<WireMessage>(bytes@).is_some() && in_window(decoded::<WireMessage>(bytes@).unwrap().timestamp, clock_reading())) ==> r.is_some(), // @C05/frame/in_window_frames_are_surfaced
+"""},
+        {"impl": "DhtRecord", "fn": "deserialize", "src": "src/placement/dht_records.rs", "erase_errors": ["P2PError::"],
+         "spec": """
+    ensures
+        bytes@.len() > @MAX_RECORD_SIZE@ ==> r.is_err(), // @C05/record/oversized_record_is_refused
+        @MAX_RECORD_SIZE@ == 512, // @C05/record/limit_is_512_bytes
+        r.is_ok() ==> decoded::<DhtRecord>(bytes@).is_some(), // @C05/record/accepted_only_if_it_decodes
+"""},
+        {"impl": "DhtRecord", "fn": "serialize", "src": "src/placement/dht_records.rs", "erase_errors": ["P2PError::"],
+         "spec": """
+    ensures
+        r matches Ok(b) ==> b@.len() <= 512, // @C05/record/serialized_record_is_at_most_512_bytes
+"""},
+        {"impl": "DhtNetworkManager", "fn": "validate_put_value_size", "src": "src/dht_network_manager.rs",
+         "drop_macros": _LOGMACROS, "erase_errors": ["P2PError::"],
+         "spec": """
+    ensures
+        r.is_ok() == (value_len <= 512), // @C05/put/stored_values_are_at_most_512_bytes
+"""},
+    ],
+    "paired_kani": [],
+    "trusted": [
+        "ASSUMED dependency contract: postcard::from_bytes / to_stdvec are total functions (value-or-error); that the decoders return normally for every input is not verified (a bounded Kani check of the decoders was not tractable)",
+        "the decoder shim's PRECONDITION `len <= decode_limit::<T>()` turns 'refused before decoding' into a proof obligation at the call site (limit 512 for DhtRecord; no limit demanded for WireMessage at this layer)",
+        "clock acquisition (SystemTime::now().duration_since(..)) replaced by an external clock function: any reading below 2^62",
+        "logging macro statements (tracing/log) dropped; error payloads dropped",
+    ],
+}
